@@ -176,6 +176,11 @@ pub open spec fn keyword_of(word: Seq<char>) -> Option<Token> {
     else if word == "in"@ { Some(Token::In) } else if word == "match"@ { Some(Token::Match) } else if word == "case"@ { Some(Token::Case) } else { None }
 }
 pub open spec fn is_ident_start(c: char) -> bool { c == '_' || ('A' <= c && c <= 'Z') || ('a' <= c && c <= 'z') }
+/// a raw, plain (not f-) literal is the text up to the first occurrence of its delimiter, character for character
+pub open spec fn raw_literal(rem: Seq<char>, delim: char, n: int, text: Seq<char>, rest: Seq<char>) -> bool {
+    0 <= n < rem.len() && rem[n] == delim && (forall|i: int| 0 <= i < n ==> rem[i] != delim) && text =~= rem.take(n) && rest == rem.skip(n + 1)
+}
+pub open spec fn is_raw_literal(rem: Seq<char>, delim: char, text: Seq<char>, rest: Seq<char>) -> bool { exists|n: int| raw_literal(rem, delim, n, text, rest) }
 pub open spec fn is_quote(c: Option<char>) -> bool { c == Some('\'') || c == Some('"') }
 
 pub proof fn lemma_hex_val_push(s: Seq<char>, c: char) ensures hex_val(s.push(c)) == hex_val(s) * 16 + hex_digit(c) { assert(s.push(c).drop_last() =~= s); }
@@ -230,12 +235,29 @@ def string_literal():
                             'rem1.len() >= 2 && all_oct(seq![escaped] + rem1.take(2)) && is_scalar(oct_val(seq![escaped] + rem1.take(2))) && working@ == w0.push(oct_val(seq![escaped] + rem1.take(2)) as char) && self.scanner.remaining() == rem1.skip(2)')
     return A(
         ret='r', attrs=['#[verifier::exec_allows_no_decreases_clause]'], requires=[WF, SHORT],
-        ensures=[WF_OUT, ERR_LOC],
-        body_begin='let ghost rem0 = self.scanner.remaining();',
-        loops={0: dict(invariant=[('scanner_well_formed', 'self.scanner.wf() && self.scanner.remaining().len() <= rem0.len() && rem0.len() < 0x7fff_0000')],
-                       ensures=[('scanner_well_formed', 'self.scanner.wf()')],
+        ensures=[WF_OUT, ERR_LOC,
+                 ('without_the_f_prefix_the_token_is_a_string', '!is_format && r is Ok ==> r->Ok_0 is Some && r->Ok_0->Some_0 is StringLit', ('C13',)),
+                 ('a_raw_literal_is_the_text_between_its_delimiters', '''is_raw && !is_format && r is Ok ==> r->Ok_0 is Some && r->Ok_0->Some_0 is StringLit
+                    && is_raw_literal(old(self).scanner.remaining(), starting, r->Ok_0->Some_0->StringLit_0@, final(self).scanner.remaining())''', ('C13',))],
+        body_begin='let ghost rem0 = self.scanner.remaining(); let ghost mut cnt: int = 0;',
+        loops={0: dict(invariant=[('scanner_well_formed', 'self.scanner.wf() && self.scanner.remaining().len() <= rem0.len() && rem0.len() < 0x7fff_0000'),
+                                  ('no_segments_without_the_f_prefix', '!is_format ==> segments@.len() == 0', ('C13',)),
+                                  ],
+                       invariant_except_break=[('raw_text_so_far', '''(is_raw && !is_format) ==> (0 <= cnt <= rem0.len() && working@ =~= rem0.take(cnt) && self.scanner.remaining() == rem0.skip(cnt)
+                                        && forall|i: int| 0 <= i < cnt ==> rem0[i] != starting)''', ('C13',))],
+                       ensures=[('scanner_well_formed', 'self.scanner.wf()'),
+                                ('no_segments_without_the_f_prefix', '!is_format ==> segments@.len() == 0', ('C13',)),
+                                ('raw_text_up_to_the_delimiter', '(is_raw && !is_format) ==> raw_literal(rem0, starting, cnt, working@, self.scanner.remaining())', ('C13',))],
                        pre='let ghost w0 = working@; let ghost mut rem1 = self.scanner.remaining(); let ghost rem_in = self.scanner.remaining();',
-                       post='proof { assert(curr != starting && !(curr == \'\\\\\' && !is_raw) && !(is_format && (curr == \'{\' || curr == \'}\')) ==> working@ == w0.push(curr) && self.scanner.remaining() == rem_in.skip(1)); }'),
+                       post='''proof {
+    assert(curr != starting && !(curr == \'\\\\\' && !is_raw) && !(is_format && (curr == \'{\' || curr == \'}\')) ==> working@ == w0.push(curr) && self.scanner.remaining() == rem_in.skip(1));
+    if is_raw && !is_format {
+        assert(rem_in == rem0.skip(cnt) && rem_in.len() > 0 && curr == rem0[cnt]);
+        assert(rem0.take(cnt + 1) =~= rem0.take(cnt).push(rem0[cnt]));
+        assert(rem0.skip(cnt).skip(1) =~= rem0.skip(cnt + 1));
+        cnt = cnt + 1;
+    }
+}'''),
                1: dict(ghost='it', invariant=[('scanner_well_formed', 'self.scanner.wf()'),
                                   ('octal_digits_so_far', 'rem1.len() >= it.index@ && oct@ =~= seq![escaped] + rem1.take(it.index@ as int) && self.scanner.remaining() == rem1.skip(it.index@ as int) && working@ == w0')],
                        post='proof { assert(rem1.take(it.index@ as int + 1) =~= rem1.take(it.index@ as int).push(rem1[it.index@ as int])); }'),
@@ -244,7 +266,17 @@ def string_literal():
         after={('stmt', 'let escaped =', 0): 'proof { rem1 = self.scanner.remaining(); }'},
         arm_end=arm_end,
         arm_begin=arm_begin,
-        before={'working.push(match char::from_u32(val)': '''proof {
+        before={'if segments.is_empty() {': '''proof {
+    if is_raw && !is_format { assert(raw_literal(rem0, starting, cnt, working@, self.scanner.remaining())); assert(segments@.len() == 0);
+        assert(is_raw_literal(rem0, starting, working@, self.scanner.remaining())); assert(rem0 == old(self).scanner.remaining()); }
+}''',
+                "break 'outer;": '''proof {
+    if is_raw && !is_format {
+        assert(rem_in == rem0.skip(cnt) && rem_in.len() > 0 && curr == rem0[cnt]);
+        assert(rem0.skip(cnt).skip(1) =~= rem0.skip(cnt + 1));
+    }
+}''',
+                'working.push(match char::from_u32(val)': '''proof {
     assert(oct@ =~= seq![escaped] + rem1.take(2));
 }'''},
         rewrites=[('[escaped].into_iter().collect()', 's_string_of_char(escaped)', 'R2m: a one-character String built through an iterator'),
@@ -267,7 +299,7 @@ def bytes_literal():
     arm_end['other'] = ('any_other_escaped_character_is_its_utf8_encoding', 'working@ == w0 + utf8_of(escaped) && self.scanner.remaining() == rem1')
     return A(
         ret='r', attrs=['#[verifier::exec_allows_no_decreases_clause]'], requires=[WF],
-        ensures=[WF_OUT, ERR_LOC],
+        ensures=[WF_OUT, ERR_LOC, ('the_token_is_a_byte_string', 'r is Ok ==> r->Ok_0 is Some && r->Ok_0->Some_0 is ByteStringLit', ('C13',))],
         loops={0: dict(invariant=[('scanner_well_formed', 'self.scanner.wf()')],
                        ensures=[('scanner_well_formed', 'self.scanner.wf()')],
                        pre='let ghost w0 = working@; let ghost mut rem1 = self.scanner.remaining(); let ghost rem_in = self.scanner.remaining();',
@@ -307,6 +339,16 @@ def collect_contract():
                     op is Some ==> t.token == op->Some_0.0 && final(self).scanner.remaining() == rem0.skip(ws + op->Some_0.1)
                         && final(self).scanner.loc() == adv_n(old(self).scanner.loc(), rem0.take(ws + op->Some_0.1))
                  })""", ('C18', 'C02', 'C13')),
+                 ('a_literal_prefix_selects_its_scanner', """r is Ok && r->Ok_0 is Some ==> ({
+                    let t = r->Ok_0->Some_0;
+                    let rem0 = old(self).scanner.remaining();
+                    let ws = ws_run(rem0) as int;
+                    let c0 = rem0[ws];
+                    let c1 = if ws + 1 < rem0.len() { Some(rem0[ws + 1]) } else { None::<char> };
+                    &&& (c0 == 'r' && is_quote(c1) ==> t.token is StringLit && is_raw_literal(rem0.skip(ws + 2), c1->Some_0, t.token->StringLit_0@, final(self).scanner.remaining()))
+                    &&& (c0 == 'b' && is_quote(c1) ==> t.token is ByteStringLit)
+                    &&& ((c0 == '\\'' || c0 == '"') ==> t.token is StringLit)
+                 })""", ('C13',)),
                  ('a_word_is_a_keyword_or_one_identifier', """r is Ok && r->Ok_0 is Some ==> ({
                     let t = r->Ok_0->Some_0;
                     let rem0 = old(self).scanner.remaining();
